@@ -4,6 +4,7 @@ import json, os, re, threading
 import vlib
 
 MODULE = "MCVersionedTree"
+TLC_SLOTS = threading.BoundedSemaphore(8)   # concurrent TLC processes of one check (the box is shared)
 
 
 def cfg_consts(cfg):
@@ -54,7 +55,9 @@ class Run:
         self.flaky, self.sum, self.lock = [], {}, threading.Lock()
 
     def tlc(self, cfg, label, **kw):
-        r = vlib.run_tlc(self.lctx, MODULE, cfg, **kw)
+        kw.setdefault("jvm", ["-Xmx4g"])
+        with TLC_SLOTS:
+            r = vlib.run_tlc(self.lctx, MODULE, cfg, **kw)
         vlib.require_model_ok(r, cfg)
         with self.lock:
             self.ctx.add_tlc(r, label)
